@@ -203,6 +203,11 @@ func (s *netSim) after(nd *netNode, ev J) {
 			outs = append(outs, J{"o": "vote", "type": a["type"], "h": a["h"], "r": a["r"], "bid": a["bid"], "i": a["i"]})
 		}
 		for _, to := range s.order {
+			// what a node signs again while it replays its WAL only sits in its internal queue: the reactor publishes
+			// from the round state (the ORIGINAL proposal and votes restored by the replay), never from that queue
+			if ev["k"] == "restart" && to != nd.ID {
+				continue
+			}
 			s.q = append(s.q, flight{to: to, from: nd.ID, msg: m})
 		}
 	}
